@@ -7,7 +7,8 @@ from ..gen import chart_digest, gen_chart
 from ..lockstep import Runner, first_difference, freeze, gen_script
 from ..probes import Probes, make_val
 from .. import build
-from .c08 import CODER, Box, Handle
+from .c08 import VCoder, Box, Handle
+from ..probes import ticking_clock
 
 import_sismic()
 from sismic.interpreter import Interpreter  # noqa: E402
@@ -15,6 +16,25 @@ from sismic.exceptions import ContractError  # noqa: E402
 from sismic.io import import_from_yaml  # noqa: E402
 
 from sismic.code import PythonEvaluator  # noqa: E402
+
+
+class Coder09(VCoder):
+    """Invariants and postconditions also call the documented after()/idle() predicates (their value does not matter):
+    whatever they read, reading it may not change the run."""
+
+    def cond(self, ch, owner_is_transition, cid, kind):
+        c = VCoder.cond(self, ch, owner_is_transition, cid, kind)
+        if kind != 'pre':
+            import zlib
+            h = zlib.crc32(cid.encode()) % 4
+            if h == 0:
+                c += ' and (after(1) or True)'
+            elif h == 1:
+                c += ' and (idle(2) or after(0.5) or True)'
+        return c
+
+
+CODER = Coder09()
 
 
 class EagerEvaluator(PythonEvaluator):
@@ -41,7 +61,7 @@ RULE = ('One case = (a) a generated chart with contracts (conditions are probes;
         'Non-trivial = distinct runs with >= 10 condition evaluations on the checked side and 0 on the other.')
 ASSUMPTIONS = ['conditions of generated charts are side-effect free apart from the probe counter',
                'shipped charts: elevator_contract.yaml, microwave_with_contracts.yaml']
-REQUIRED_COUNTERS = ['runs_with_bound_property_statechart', 'runs_with_eager_evaluator', 'steps_compared', 'runs_with_10plus_evaluations', 'shipped_chart_runs', 'runs_with_planned_failures',
+REQUIRED_COUNTERS = ['runs_with_ticking_clock', 'runs_with_bound_property_statechart', 'runs_with_eager_evaluator', 'steps_compared', 'runs_with_10plus_evaluations', 'shipped_chart_runs', 'runs_with_planned_failures',
                      'conditions_evaluated_checked_side', 'time_predicate_guard_steps']
 TIERS = dict(quick=dict(steps=30, gen=dict(max_states=12, max_depth=4, max_trans=14)),
              thorough=dict(steps=60, gen=dict(max_states=18, max_depth=5, max_trans=24)))
@@ -80,12 +100,15 @@ def run_case(acc, rnd, tier, case):
     eager = rnd.random() < 0.3 and not failing
     if eager:
         acc.count('runs_with_eager_evaluator')
+    ticking = rnd.random() < 0.2        # a clock that grows with every reading: both runs must read it equally often
+    if ticking:
+        acc.count('runs_with_ticking_clock')
     for ignore in (False, True):
         sc, tmap = build.build_api(ch, coder=CODER)
         pr = Probes(val=make_val(valseed, p_true))
         pr.cond_plan = cond_plan
         it = Interpreter(sc, initial_context=pr.context(v=0, box=Box(), lst=[], res={'h': Handle()}), ignore_contract=ignore,
-                         evaluator_klass=EagerEvaluator if eager else PythonEvaluator)
+                         evaluator_klass=EagerEvaluator if eager else PythonEvaluator, clock=ticking_clock() if ticking else None)
         it.attach(pr.listener())
         if with_property:
             from .c10 import recording_property, KINDS
